@@ -481,3 +481,125 @@ Proof.
   - cbn [subwd_state S_subwd_SubBal]. replace (bget (c_bank s) (sub_addr x) - (bget (c_bank s) (sub_addr x) - w)) with w by lia.
     rewrite EW. reflexivity.
 Qed.
+
+(* ---- the market update and resolution handlers (x/market/keeper msg_server_market.go Update, msg_server_market_resolve.go Resolve, market.go
+   Resolve), generated as functions on the state they reach: whether the ticket verifies and the payload it carries, the market stored under
+   the payload's uid and whether it exists, the queue of resolved markets, the block time ---------------------------------------------------- *)
+Definition mkt_state (tok : bool) (up : G_MarketUpdateTicketPayload) (rp : G_MarketResolutionTicketPayload) (found : bool) (mk : market)
+                     (q : list Z) (now : Z) : S_mkt :=
+  {| S_mkt_TicketOK := tok; S_mkt_UpdPayload := up; S_mkt_ResPayload := rp; S_mkt_Found := found; S_mkt_Market := gm_of mk; S_mkt_Queue := q; S_mkt_Now := now |}.
+Definition upd_payload (uid st en status : Z) : G_MarketUpdateTicketPayload :=
+  {| G_MarketUpdateTicketPayload_UID := uid; G_MarketUpdateTicketPayload_StartTS := st; G_MarketUpdateTicketPayload_EndTS := en;
+     G_MarketUpdateTicketPayload_Status := status |}.
+Definition res_payload (uid rts : Z) (winners : list Z) (status : Z) : G_MarketResolutionTicketPayload :=
+  {| G_MarketResolutionTicketPayload_UID := uid; G_MarketResolutionTicketPayload_ResolutionTS := rts;
+     G_MarketResolutionTicketPayload_WinnerOddsUIDs := winners; G_MarketResolutionTicketPayload_Status := status |}.
+
+(* = market_update after the ticket and the lookup: the three guards, then the three fields are replaced *)
+Lemma gen_msgUpdate tok uid st en status rp found mk q now :
+  K_mkt_msgUpdate (mkt_state tok (upd_payload uid st en status) rp found mk q now) =
+  if negb tok then None else if negb found then None
+  else if negb (status_ai (k_status mk)) then None
+  else if negb (status_ai status) then None
+  else if negb (market_ts_ok now st en) then None
+  else Some (mkt_state tok (upd_payload uid st en status) rp true (market_with mk st en status (k_winners mk) (k_rts mk)) q now).
+Proof.
+  unfold K_mkt_msgUpdate, mkt_state. cbn [S_mkt_TicketOK S_mkt_UpdPayload S_mkt_Found S_mkt_Market S_mkt_Now].
+  destruct tok; cbn [negb]; [|reflexivity]. destruct found; cbn [negb]; [|reflexivity].
+  rewrite gen_market_update_allowed. destruct (status_ai (k_status mk)); cbn [negb]; [|reflexivity].
+  unfold upd_payload at 1. rewrite gen_update_Validate.
+  destruct (status_ai status); cbn [negb andb]; [|reflexivity]. destruct (market_ts_ok now st en); cbn [negb]; reflexivity.
+Qed.
+
+(* = market_resolve after the ticket: payload guards, lookup, status, winners; the record is rewritten and the market queued *)
+Lemma gen_msgResolve tok up uid rts winners status found mk q now :
+  K_mkt_msgResolve (mkt_state tok up (res_payload uid rts winners status) found mk q now) =
+  if negb tok then None
+  else if negb (status_resolved status && negb ((status =? MK_DECLARED) && (1 <? zlen winners)) && negb (negb (status =? MK_DECLARED) && (0 <? zlen winners))
+                && negb (rts =? 0) && negb (uid <? 0) && negb ((status =? MK_DECLARED) && (zlen winners <? 1)) && forallb (fun o => 0 <=? o) winners) then None
+  else if negb found then None
+  else if negb (status_ai (k_status mk)) then None
+  else if (status =? MK_DECLARED) && ((rts <? k_start mk) || negb (forallb (fun w => zmem w (k_odds mk)) winners)) then None
+  else Some (mkt_state tok up (res_payload uid rts winners status) true
+               (market_with mk (k_start mk) (k_end mk) status (if status =? MK_DECLARED then winners else k_winners mk) rts) (q ++ [k_uid mk]) now).
+Proof.
+  unfold K_mkt_msgResolve, mkt_state. cbn [S_mkt_TicketOK S_mkt_ResPayload S_mkt_Found S_mkt_Market S_mkt_Now].
+  destruct tok; cbn [negb]; [|reflexivity].
+  unfold res_payload at 1. rewrite gen_resolution_Validate.
+  match goal with |- (if negb ?g then _ else _) = _ => destruct g eqn:EG end; cbn [negb]; [|reflexivity].
+  destruct found; cbn [negb]; [|reflexivity].
+  rewrite gen_market_resolve_allowed. destruct (status_ai (k_status mk)); cbn [negb]; [|reflexivity].
+  unfold res_payload at 1. rewrite gen_ValidateWinnerOdds.
+  destruct ((status =? MK_DECLARED) && ((rts <? k_start mk) || negb (forallb (fun w => zmem w (k_odds mk)) winners))); cbn [negb]; [reflexivity|].
+  (* the resolved status is one of the three (from the payload guard) *)
+  assert (HR : status_resolved status = true).
+  { repeat (apply andb_true_iff in EG; destruct EG as [EG _]). exact EG. }
+  unfold K_mkt_Resolve, res_payload, MK_DECLARED.
+  cbn [G_MarketResolutionTicketPayload_ResolutionTS G_MarketResolutionTicketPayload_Status G_MarketResolutionTicketPayload_WinnerOddsUIDs].
+  unfold status_resolved, MK_CANCELED, MK_ABORTED, MK_DECLARED in HR.
+  unfold K_Market_IsResolved, set_G_Market_WinnerOddsUIDs, set_G_Market_Status, set_G_Market_ResolutionTS, gm_of.
+  cbn [G_Market_Status G_Market_UID G_Market_StartTS G_Market_EndTS G_Market_Odds G_Market_WinnerOddsUIDs G_Market_ResolutionTS G_Market_Creator
+       G_Market_Meta G_Market_BookUID].
+  destruct (status =? 5) eqn:E5.
+  - cbn [orb]. reflexivity.
+  - rewrite orb_false_r in HR. cbn [orb]. rewrite HR. reflexivity.
+Qed.
+
+(* the model's handlers accept exactly when the generated handlers do (on the state assembled from the chain state), and gen_msgUpdate /
+   gen_msgResolve say that the record and the queue the generated handlers store are the model's *)
+Lemma model_market_update s tk uid st en status rp :
+  market_update s tk uid st en status =
+  match get_ms s uid with
+  | None => None
+  | Some x =>
+      match K_mkt_msgUpdate (mkt_state (ticket_ok s tk) (upd_payload uid st en status) rp true (ms_mkt x) (c_mqueue s) (c_now s)) with
+      | None => None
+      | Some _ =>
+          let x' := mstate_upd x (market_with (ms_mkt x) st en status (k_winners (ms_mkt x)) (k_rts (ms_mkt x))) (ms_book x)
+                               (ms_bets x) (ms_pending x) (ms_deps x) (ms_wds x) in
+          Some (chain_upd s (c_bank s) (set_ms_list (c_ms s) uid x') (c_mqueue s) (c_bqueue s) (c_betcnt s) (c_uid2id s) (c_settledix s) (c_grants s))
+      end
+  end.
+Proof.
+  unfold market_update. destruct (ticket_ok s tk) eqn:ET; cbn [negb].
+  - destruct (get_ms s uid) as [x|]; [|reflexivity]. rewrite gen_msgUpdate. cbn [negb].
+    destruct (status_ai (k_status (ms_mkt x))); cbn [negb]; [|reflexivity].
+    destruct (status_ai status); cbn [negb]; [|reflexivity]. destruct (market_ts_ok (c_now s) st en); reflexivity.
+  - destruct (get_ms s uid) as [x|]; [|reflexivity]. rewrite gen_msgUpdate. reflexivity.
+Qed.
+
+Lemma model_market_resolve s tk uid rts winners status up :
+  market_resolve s tk uid rts winners status =
+  match get_ms s uid with
+  | None => match K_mkt_msgResolve (mkt_state (ticket_ok s tk) up (res_payload uid rts winners status) false
+                                              {| k_uid := uid; k_creator := 0; k_start := 0; k_end := 0; k_odds := []; k_status := 0; k_winners := []; k_rts := 0 |}
+                                              (c_mqueue s) (c_now s)) with
+            | None => None | Some _ => None end
+  | Some x =>
+      match K_mkt_msgResolve (mkt_state (ticket_ok s tk) up (res_payload uid rts winners status) true (ms_mkt x) (c_mqueue s) (c_now s)) with
+      | None => None
+      | Some _ =>
+          let mk' := market_with (ms_mkt x) (k_start (ms_mkt x)) (k_end (ms_mkt x)) status
+                                 (if status =? MK_DECLARED then winners else k_winners (ms_mkt x)) rts in
+          let x' := mstate_upd x mk' (ms_book x) (ms_bets x) (ms_pending x) (ms_deps x) (ms_wds x) in
+          Some (chain_upd s (c_bank s) (set_ms_list (c_ms s) uid x') (c_mqueue s ++ [uid]) (c_bqueue s) (c_betcnt s) (c_uid2id s) (c_settledix s) (c_grants s))
+      end
+  end.
+Proof.
+  unfold market_resolve. destruct (get_ms s uid) as [x|]; rewrite gen_msgResolve; destruct (ticket_ok s tk); cbn [negb].
+  2, 4: (repeat match goal with |- context [if ?c then None else _] => destruct c end); reflexivity.
+  - destruct (status_resolved status); cbn [negb andb]; [|reflexivity].
+    destruct ((status =? MK_DECLARED) && (1 <? zlen winners)); cbn [negb andb]; [reflexivity|].
+    destruct (negb (status =? MK_DECLARED) && (0 <? zlen winners)); cbn [negb andb]; [reflexivity|].
+    destruct (rts =? 0); cbn [negb andb]; [reflexivity|]. destruct (uid <? 0); cbn [negb andb]; [reflexivity|].
+    destruct ((status =? MK_DECLARED) && (zlen winners <? 1)); cbn [negb andb]; [reflexivity|].
+    destruct (forallb (fun o => 0 <=? o) winners); cbn [negb]; [|reflexivity].
+    destruct (status_ai (k_status (ms_mkt x))); cbn [negb]; [|reflexivity].
+    destruct ((status =? MK_DECLARED) && ((rts <? k_start (ms_mkt x)) || negb (forallb (fun w => zmem w (k_odds (ms_mkt x))) winners))); reflexivity.
+  - destruct (status_resolved status); cbn [negb andb]; [|reflexivity].
+    destruct ((status =? MK_DECLARED) && (1 <? zlen winners)); cbn [negb andb]; [reflexivity|].
+    destruct (negb (status =? MK_DECLARED) && (0 <? zlen winners)); cbn [negb andb]; [reflexivity|].
+    destruct (rts =? 0); cbn [negb andb]; [reflexivity|]. destruct (uid <? 0); cbn [negb andb]; [reflexivity|].
+    destruct ((status =? MK_DECLARED) && (zlen winners <? 1)); cbn [negb andb]; [reflexivity|].
+    destruct (forallb (fun o => 0 <=? o) winners); reflexivity.
+Qed.
